@@ -429,7 +429,8 @@ func genTypesProject(r *rng.R) (pProject, []string) {
 				for i, n := range []string{"January", "February", "March", "April", "May", "June", "July", "August", "September", "October", "November", "December"} {
 					consts = append(consts, [2]string{n, fmt.Sprint(i + 1)})
 				}
-				p.Types = append(p.Types, pType{Kind: "enum", Name: "Month", Pkg: "time", File: "month.go", Base: "int", Consts: consts, External: true})
+				p.Types = append(p.Types, pType{Kind: "enum", Name: "Month", Pkg: "time", File: "month.go", Base: "int", Consts: consts, External: true,
+					Doc: []string{"A Month specifies a month of the year (January = 1, ...)."}})
 				tags = append(tags, "std-enum-field")
 				break
 			}
